@@ -173,12 +173,32 @@ def foldCalls (r : Req) : List Call → Option Req
     | none => none
     | some r' => foldCalls r' cs
 
-/-- protocol.rs:196-202: `if self.is_empty() == Some(false)` the body is taken out with `take_body()` (which runs
-    `copy_content_type_from_body` for the empty replacement body, MIME `application/octet-stream`) and read;
-    otherwise — empty, **or of unknown length (`is_empty()` is `None`)** — the request goes out with `vec![]`. -/
+/-- protocol.rs:196-204 (after fix fb3ba05): `if self.is_empty() != Some(true)` — i.e. unless the body is *known* to be
+    empty — it is taken out with `take_body()` (which runs `copy_content_type_from_body` for the empty replacement
+    body, MIME `application/octet-stream`) and read to the end; a body known to be empty is sent as `vec![]`. -/
 def intoProtocol (r : Req) : Req :=
-  if r.lenKnown && !r.body.isEmpty then { r with headers := copyContentType r.headers octetStream }
-  else { r with body := [] }
+  if r.lenKnown && r.body.isEmpty then r else { r with headers := copyContentType r.headers octetStream }
+
+/-- `String::cmp` on header names: byte-wise lexicographic `≤` -/
+def bytesLe : Bytes → Bytes → Bool
+  | [], _ => true
+  | _ :: _, [] => false
+  | a :: as, b :: bs => a < b || (a == b && bytesLe as bs)
+
+/-- stable insertion by name: before the first pair whose name is not smaller -/
+def insertByName (p : Bytes × Bytes) : List (Bytes × Bytes) → List (Bytes × Bytes)
+  | [] => [p]
+  | q :: t => if bytesLe p.1 q.1 then p :: q :: t else q :: insertByName p t
+
+/-- `headers.sort_by(|a, b| a.name.cmp(&b.name))` (stable): protocol.rs:206-218 after fix cda2127 -/
+def sortByName (l : List (Bytes × Bytes)) : List (Bytes × Bytes) := l.foldr insertByName []
+
+/-- the header list of the protocol request, for the header map iterated in the order of `h`:
+    flattened, then sorted by name — the values of one name keep their order -/
+def emitHeaders (h : Headers) : List (Bytes × Bytes) := sortByName h.flat
+
+/-- the pinned tree (before cda2127) emitted the pairs in the iteration order of the hash map -/
+def emitHeadersUnsorted (h : Headers) : List (Bytes × Bytes) := h.flat
 
 structure ReqCase where
   /-- `get` … `patch` (convenience constructors) or an upper-case method name (`request(method, url)`) -/
@@ -193,7 +213,7 @@ inductive PanicClass where
 deriving DecidableEq, Repr
 
 inductive ReqObs where
-  /-- number of effects, then the fields of the `HttpRequest` operation (headers flattened) -/
+  /-- number of effects, then the fields of the `HttpRequest` operation (headers in the order emitted) -/
   | req (effects : Nat) (method url : Bytes) (headers : List (Bytes × Bytes)) (body : Bytes)
   | panic (c : PanicClass)
 deriving DecidableEq, Repr
@@ -205,7 +225,7 @@ def buildRequest (c : ReqCase) : ReqObs :=
   | none => .panic .header
   | some r =>
     let p := intoProtocol r
-    .req 1 p.method p.url p.headers.flat p.body
+    .req 1 p.method p.url (emitHeaders p.headers) p.body
 
 /-! ### C15: handling a result -/
 
